@@ -3,9 +3,13 @@
    validity, regexp compilability, parameter tokenizer, command outputs, pattern matching).
 
    Structure: one lemma per Go helper "never Panic" (NP) / "no effect, environment unchanged" (quiet),
-   composed along builder.go:107 build.  Where the faithful model refutes the property (DESIGN.md section 6,
-   F13a-g, F19a-b) there is a `_refuted` witness computed by vm_compute and a `_partial` theorem whose
-   premises are decidable predicates on the INPUT naming the excluded class. *)
+   composed along builder.go:107 build.  The model follows the REPAIRED code (/repo fix commits c2912bd,
+   519d0a6, e67ca4a, c021988, 089471d, aac42fa, 4348d0d, a55d876): the full statements of C13 / C19 hold,
+   with one exception - the status of an accepted DAG is not always serialisable (F13f, not repaired): for it
+   there is a `_refuted` witness (Witness.v) and a `_partial` theorem whose premise is a decidable predicate
+   on the INPUT naming the excluded class.
+   What remains as a hypothesis: the cron library panics on nothing but a spec that is a bare TZ= / CRON_TZ=
+   prefix (cron_panic_tz); it is discharged for the Cron model in CronPlug.v. *)
 From Coq Require Import List ZArith String Ascii Bool Arith Lia.
 Import ListNotations.
 From BD.Loader Require Import Str Model Decode.
@@ -55,8 +59,6 @@ Qed.
 Lemma rbind_np : forall A B (r : res A) (f : A -> res B), r <> Panic -> (forall a, f a <> Panic) -> rbind r f <> Panic.
 Proof. intros A B r f H Hf. destruct r; simpl; auto; congruence. Qed.
 
-Definition is_some {A} (o : option A) : bool := match o with Some _ => true | None => false end.
-
 Section Proofs.
 Variable cron : string -> cronv.
 Variable sig_ok : string -> bool.
@@ -64,6 +66,8 @@ Variable re_ok : string -> bool.
 Variable tokenize : string -> list (string * string).
 Variable sh : string -> option string.
 Variable cond_met : string -> string -> bool.
+(* the only input on which cronParser.Parse panics (robfig/cron v3.0.1 parser.go:97-99) *)
+Hypothesis cron_panic_tz : forall s, cron s = CronPanic -> tz_only s = true.
 
 (* ---------------------------------------------------------------------------------------------------- *)
 (* the effectful helpers never panic                                                                       *)
@@ -114,7 +118,7 @@ Lemma param_subst_loop_np : forall ms cur failed, NP (param_subst_loop sh ms cur
 Proof.
   induction ms as [|m ms IH]; intros cur failed; simpl.
   - apply NP_ret.
-  - intros e. apply (NP_bind _ _ (exec_cmd sh (expand_env e (trim_char c_btick m)))); [apply exec_cmd_np|].
+  - intros e. match goal with |- outcome (bind ?m0 ?f e) <> Panic => apply (NP_bind _ _ m0 f) end; [apply exec_cmd_np|].
     intros [o|]; apply IH.
 Qed.
 Lemma parseParamValue_one_np : forall eval nv, NP (parseParamValue_one sh eval nv).
@@ -132,7 +136,8 @@ Qed.
 Lemma parseParams_loop_np : forall eval noEval ps i r envs, NP (parseParams_loop eval noEval i ps r envs).
 Proof.
   intros eval noEval. induction ps as [|[name v0] ps IH]; intros i r envs; simpl; [apply NP_ret|].
-  intros e. match goal with |- outcome (bind ?m ?f e) <> Panic => apply (NP_bind _ _ m f) end; [apply setenv_np|].
+  intros e. match goal with |- outcome (bind ?m ?f e) <> Panic => apply (NP_bind _ _ m f) end;
+    [destruct noEval; [apply NP_ret | apply setenv_np]|].
   intros _. destruct (negb noEval && negb (is_empty name)).
   - apply NP_bind; [apply setenv_np|]. intros _. apply IH.
   - apply IH.
@@ -142,153 +147,68 @@ Proof. intros. unfold parseParams. apply NP_bind; [apply parseParamValue_np|]. i
 Lemma buildParams_np : forall d o, NP (buildParams tokenize sh d o).
 Proof. intros. unfold buildParams. apply NP_bind; [apply parseParams_np|]. intros; apply NP_ret. Qed.
 
-Lemma buildLogDir_np : forall d, NP (buildLogDir sh d).
-Proof. intros d e. unfold buildLogDir. apply substituteCommands_np. Qed.
+Lemma buildLogDir_np : forall d o, NP (buildLogDir sh d o).
+Proof. intros d o e. unfold buildLogDir. destruct (o_noEval o); [discriminate | apply substituteCommands_np]. Qed.
 Lemma buildSMTPConfig_np : forall d, NP (buildSMTPConfig d).
 Proof. intros d e. discriminate. Qed.
 
 (* ---------------------------------------------------------------------------------------------------- *)
 (* schedule (builder.go:173, parser.go:22-106)                                                            *)
 (* ---------------------------------------------------------------------------------------------------- *)
-Definition str_safe (s : string) : bool := match cron s with CronPanic => false | _ => true end.
-Definition cron_ok (s : string) : bool := match cron s with CronOk => true | _ => false end.
-Definition values_of (v : yv) : list string :=
-  match v with
-  | VStr s => [s]
-  | VList l => match strings_of l with Some x => x | None => [] end
-  | _ => []
-  end.
-Definition known_key (k : string) : bool := match skey_of k with KUnknown => false | _ => true end.
-(* an entry of a schedule mapping is harmless if none of its strings makes the cron parser panic and its
-   key is start / stop / restart - or it carries no string at all *)
-Definition entry_safe (kv : yv * yv) : bool :=
-  match fst kv with
-  | VStr key => forallb str_safe (values_of (snd kv)) &&
-                (known_key key || match values_of (snd kv) with [] => true | _ => false end)
-  | _ => true
-  end.
-Definition sched_safe (v : yv) : bool :=
-  match v with
-  | VStr s => str_safe s
-  | VList l => forallb str_safe (values_of (VList l))
-  | VMap m => forallb entry_safe m
-  | _ => true
-  end.
+Definition cron_ok (s : string) : bool := match parseCron cron s with CronOk => true | _ => false end.
 
-Lemma cron_ok_safe : forall s, cron_ok s = true -> str_safe s = true.
-Proof. unfold cron_ok, str_safe. intros s. destruct (cron s); auto; discriminate. Qed.
-Lemma okl_safe : forall l, forallb cron_ok l = true -> forallb str_safe l = true.
+Lemma parseCron_np : forall s, parseCron cron s <> CronPanic.
 Proof.
-  induction l; simpl; auto. intros H. apply andb_true_iff in H as [H1 H2].
-  rewrite (cron_ok_safe _ H1), (IHl H2). reflexivity.
+  intros s H. unfold parseCron in H. destruct (tz_only s) eqn:E; [discriminate|].
+  rewrite (cron_panic_tz s H) in E. discriminate.
 Qed.
 
-Lemma parseSchedules_np : forall l, forallb str_safe l = true -> parseSchedules cron l <> Panic.
+Lemma parseSchedules_np : forall l, parseSchedules cron l <> Panic.
 Proof.
-  induction l as [|v r IH]; simpl; [discriminate|]. intros H. apply andb_true_iff in H as [H1 H2].
-  unfold str_safe in H1. destruct (cron v); try discriminate.
-  apply rbind_np; [apply IH, H2 | discriminate].
+  induction l as [|v r IH]; simpl; [discriminate|].
+  pose proof (parseCron_np v). destruct (parseCron cron v); try congruence; try discriminate.
+  apply rbind_np; [exact IH | discriminate].
 Qed.
 Lemma parseSchedules_ok : forall l r, parseSchedules cron l = Ok r -> r = l /\ forallb cron_ok l = true.
 Proof.
   induction l as [|v l IH]; simpl; intros r H.
   - inversion H; auto.
-  - unfold cron_ok at 1. destruct (cron v); try discriminate.
+  - unfold cron_ok at 1. destruct (parseCron cron v); try discriminate.
     destruct (parseSchedules cron l) as [| |x] eqn:E; simpl in H; try discriminate.
     inversion H; subst. destruct (IH x eq_refl) as [-> H2]. auto.
 Qed.
 
-Definition acc_ok (acc : list string * list string * list string) : bool :=
-  forallb cron_ok (fst (fst acc)) && forallb cron_ok (snd (fst acc)) && forallb cron_ok (snd acc).
-
-Lemma forallb_snoc : forall A (f : A -> bool) l x, forallb f (l ++ [x]) = forallb f l && f x.
-Proof. intros. rewrite forallb_app. simpl. rewrite andb_true_r. reflexivity. Qed.
-
-Definition skey_known (k : skey) : bool := match k with KUnknown => false | _ => true end.
-
-Lemma sched_values_loop_spec : forall k vals acc,
-  forallb str_safe vals = true -> (skey_known k = true \/ vals = []) ->
-  sched_values_loop cron k vals acc <> Panic /\
-  (forall acc', acc_ok acc = true -> sched_values_loop cron k vals acc = Ok acc' -> acc_ok acc' = true).
+Lemma sched_values_loop_np : forall k vals acc, sched_values_loop cron k vals acc <> Panic.
 Proof.
-  intros k. induction vals as [|v r IH]; intros acc Hs Hk; simpl.
-  - split; [discriminate|]. intros acc' H E. inversion E; subst; exact H.
-  - simpl in Hs. apply andb_true_iff in Hs as [Hv Hr].
-    destruct Hk as [Hk|Hk]; [|discriminate].
-    unfold str_safe in Hv. destruct (cron v) eqn:Ec; try discriminate.
-    + destruct acc as [[a b] c].
-      assert (Hok : cron_ok v = true) by (unfold cron_ok; rewrite Ec; reflexivity).
-      destruct k; simpl in Hk; try discriminate.
-      * destruct (IH (a ++ [v], b, c) Hr (or_introl eq_refl)) as [H1 H2]. split; [exact H1|].
-        intros acc' Ha E. apply H2; [|exact E]. unfold acc_ok in *; simpl in *.
-        rewrite forallb_snoc, Hok, andb_true_r. exact Ha.
-      * destruct (IH (a, b ++ [v], c) Hr (or_introl eq_refl)) as [H1 H2]. split; [exact H1|].
-        intros acc' Ha E. apply H2; [|exact E]. unfold acc_ok in *; simpl in *.
-        rewrite forallb_snoc, Hok, andb_true_r. exact Ha.
-      * destruct (IH (a, b, c ++ [v]) Hr (or_introl eq_refl)) as [H1 H2]. split; [exact H1|].
-        intros acc' Ha E. apply H2; [|exact E]. unfold acc_ok in *; simpl in *.
-        rewrite forallb_snoc, Hok, andb_true_r. exact Ha.
-    + split; [discriminate|]. intros; discriminate.
+  intros k. induction vals as [|v r IH]; intros acc; simpl; [discriminate|].
+  pose proof (parseCron_np v). destruct (parseCron cron v); try congruence; try discriminate.
+  destruct acc as [[a b] c]. destruct k; try apply IH. discriminate.
 Qed.
 
-Lemma parseScheduleMap_spec : forall m acc,
-  forallb entry_safe m = true ->
-  parseScheduleMap cron m acc <> Panic /\
-  (forall acc', acc_ok acc = true -> parseScheduleMap cron m acc = Ok acc' -> acc_ok acc' = true).
+Lemma parseScheduleMap_np : forall m acc, parseScheduleMap cron m acc <> Panic.
 Proof.
-  induction m as [|[k v] m IH]; intros acc Hs; simpl.
-  - split; [discriminate|]. intros acc' H E; inversion E; subst; exact H.
-  - simpl in Hs. apply andb_true_iff in Hs as [He Hm].
-    destruct k; try (split; [discriminate | intros; discriminate]).
-    unfold entry_safe in He; simpl in He. apply andb_true_iff in He as [Hv Hk].
-    assert (Hvals : forall vals, (match v with
-                                  | VStr s0 => Ok [s0]
-                                  | VList l => match strings_of l with Some x => Ok x | None => Err end
-                                  | _ => Ok []
-                                  end) = Ok vals -> vals = values_of v).
-    { intros vals E. destruct v; simpl in *; inversion E; auto. destruct (strings_of l); inversion E; auto. }
-    destruct (match v with
-              | VStr s0 => Ok [s0]
-              | VList l => match strings_of l with Some x => Ok x | None => Err end
-              | _ => Ok []
-              end) as [| |vals] eqn:Ev.
-    + exfalso. destruct v; try discriminate. destruct (strings_of l); discriminate.
-    + split; [discriminate | intros; discriminate].
-    + rewrite (Hvals vals eq_refl) in *.
-      assert (Hk' : skey_known (skey_of s) = true \/ values_of v = []).
-      { apply orb_true_iff in Hk as [Hk|Hk]; [left; exact Hk|]. right. destruct (values_of v); [reflexivity | discriminate]. }
-      destruct (sched_values_loop_spec (skey_of s) (values_of v) acc Hv Hk') as [H1 H2].
-      destruct (sched_values_loop cron (skey_of s) (values_of v) acc) as [| |acc1] eqn:E1; simpl.
-      * congruence.
-      * split; [discriminate | intros; discriminate].
-      * destruct (IH acc1 Hm) as [H3 H4]. split; [exact H3|].
-        intros acc' Ha E. apply H4; [|exact E]. apply H2; auto.
+  induction m as [|[k v] m IH]; intros acc; simpl; [discriminate|].
+  destruct k; try discriminate.
+  destruct (match v with
+            | VStr s0 => Ok [s0]
+            | VList l => match strings_of l with Some x => Ok x | None => Err end
+            | _ => Ok []
+            end) as [| |vals] eqn:Ev; try discriminate.
+  - exfalso. destruct v; try discriminate. destruct (strings_of l); discriminate.
+  - destruct (skey_of s); try discriminate;
+      (apply rbind_np; [apply sched_values_loop_np | intros; apply IH]).
 Qed.
 
-Lemma buildSchedule_np : forall d, sched_safe (d_schedule d) = true -> buildSchedule cron d <> Panic.
+Lemma buildSchedule_np : forall d, buildSchedule cron d <> Panic.
 Proof.
-  intros d H. unfold buildSchedule.
-  assert (Hfin : forall r : res (list string * list string * list string), r <> Panic ->
-     (forall a b c, r = Ok (a, b, c) -> forallb str_safe a = true /\ forallb str_safe b = true /\ forallb str_safe c = true) ->
-     (sss <~ r ;; let '(a, b, c) := sss in
-      x <~ parseSchedules cron a ;; y <~ parseSchedules cron b ;; z <~ parseSchedules cron c ;; Ok (x, y, z)) <> Panic).
-  { intros r Hr Hs. destruct r as [| |[[a b] c]]; simpl; try congruence; try discriminate.
-    destruct (Hs a b c eq_refl) as [Ha [Hb Hc]].
-    apply rbind_np; [apply parseSchedules_np, Ha|]. intros x.
-    apply rbind_np; [apply parseSchedules_np, Hb|]. intros y.
-    apply rbind_np; [apply parseSchedules_np, Hc|]. discriminate. }
-  apply Hfin.
+  intros d. unfold buildSchedule. apply rbind_np.
   - destruct (d_schedule d); try discriminate.
     + destruct (strings_of l); discriminate.
-    + apply (parseScheduleMap_spec m ([], [], []) H).
-  - intros a b c E. destruct (d_schedule d); try discriminate.
-    + inversion E; subst. simpl. auto.
-    + inversion E; subst. simpl in *. rewrite H. auto.
-    + simpl in H. destruct (strings_of l) as [x|]; inversion E; subst. auto.
-    + destruct (parseScheduleMap_spec m ([], [], []) H) as [_ H2].
-      specialize (H2 (a, b, c) eq_refl E). unfold acc_ok in H2; simpl in H2.
-      apply andb_true_iff in H2 as [H2 Hc]. apply andb_true_iff in H2 as [Ha Hb].
-      repeat split; apply okl_safe; assumption.
+    + apply parseScheduleMap_np.
+  - intros [[a b] c].
+    apply rbind_np; [apply parseSchedules_np|]. intros x.
+    apply rbind_np; [apply parseSchedules_np|]. intros y.
+    apply rbind_np; [apply parseSchedules_np|]. discriminate.
 Qed.
 
 Lemma buildSchedule_ok : forall d a b c, buildSchedule cron d = Ok (a, b, c) ->
@@ -371,8 +291,6 @@ Proof.
   repeat match goal with |- (if ?c then _ else _) <> Panic => destruct c end; discriminate.
 Qed.
 
-Definition conds_ok (cs : list (option conditionDef)) : bool := forallb is_some cs.
-
 Lemma buildStep_np : forall vars def fns,
   forallb is_some fns = true -> conds_ok (sd_preconditions def) = true ->
   buildStep sig_ok vars (Some def) fns <> Panic.
@@ -383,12 +301,8 @@ Proof.
   apply rbind_np; [apply parseFuncCall_np, Hf|]. intros fc.
   apply rbind_np; [apply parseCommand_np|]. intros [[cwa cmd] args].
   apply rbind_np; [apply parseExecutor_np|]. intros ex.
-  apply rbind_np; [apply parseSignal_np|]. discriminate.
+  apply rbind_np; [apply parseSignal_np|]. intros sg. cbv zeta. destruct (step_executable _); discriminate.
 Qed.
-
-Definition stepdef_ok (sd : stepDef) : bool := conds_ok (sd_preconditions sd).
-Definition ostep_ok (o : option stepDef) : bool := match o with Some sd => stepdef_ok sd | None => false end.
-Definition handler_ok (o : option stepDef) : bool := match o with Some sd => stepdef_ok sd | None => true end.
 
 Lemma buildSteps_np : forall vars sds fns,
   forallb is_some fns = true -> forallb ostep_ok sds = true -> buildSteps sig_ok vars sds fns <> Panic.
@@ -405,9 +319,6 @@ Proof.
   intros vars n [sd|] fns Hf Hh; simpl; [|discriminate].
   apply rbind_np; [apply buildStep_np; [exact Hf | exact Hh] | discriminate].
 Qed.
-
-Definition handlers_ok (h : handlerOnDef) : bool :=
-  handler_ok (h_exit h) && handler_ok (h_success h) && handler_ok (h_failure h) && handler_ok (h_cancel h).
 
 Lemma buildHandlers_np : forall vars h fns,
   forallb is_some fns = true -> handlers_ok h = true -> buildHandlers sig_ok vars h fns <> Panic.
@@ -430,22 +341,18 @@ Lemma assertFunctions_np : forall fns, forallb is_some fns = true -> assertFunct
 Proof. intros; apply assertFunctions_loop_np; assumption. Qed.
 
 (* ---------------------------------------------------------------------------------------------------- *)
-(* C13: the builder never panics - outside the classes of F13a, F13b, F13c                                *)
+(* C13: the builder never panics on a definition without null elements - which is every definition the      *)
+(* decode stage lets through (DecodeProofs.decode_no_nil)                                                   *)
 (* ---------------------------------------------------------------------------------------------------- *)
-(* no null element in steps / functions / preconditions (of the DAG, of a step, of a handler) *)
-Definition no_nil (d : definition) : bool :=
-  forallb ostep_ok (d_steps d) && forallb is_some (d_functions d) && conds_ok (d_preconditions d) &&
-  handlers_ok (d_handlerOn d).
-
-Theorem build_no_panic_partial : forall (o : opts) (d : definition) (base : list string),
-  no_nil d = true -> sched_safe (d_schedule d) = true ->
+Theorem build_no_panic : forall (o : opts) (d : definition) (base : list string),
+  no_nil d = true ->
   forall e, outcome (build cron sig_ok tokenize sh o d base e) <> Panic.
 Proof.
-  intros o d base Hn Hs. unfold no_nil in Hn.
+  intros o d base Hn. unfold no_nil in Hn.
   apply andb_true_iff in Hn as [Hn Hh]. apply andb_true_iff in Hn as [Hn Hp]. apply andb_true_iff in Hn as [Hst Hf].
   change (NP (build cron sig_ok tokenize sh o d base)). unfold build.
   apply NP_bind; [apply NP_try, buildEnvs_np|]. intros r_env.
-  apply NP_bind; [apply NP_try, NP_lift, buildSchedule_np, Hs|]. intros r_sch.
+  apply NP_bind; [apply NP_try, NP_lift, buildSchedule_np|]. intros r_sch.
   apply NP_bind; [apply NP_try, buildParams_np|]. intros r_par.
   destruct (o_metadataOnly o).
   - destruct r_env, r_sch, r_par; try apply NP_ret; apply NP_lift; discriminate.
@@ -482,7 +389,7 @@ Proof.
   all: try (inversion H; subst; exists env, sch, par; split; [reflexivity | reflexivity]).
   all: match type of H with context [buildSteps sig_ok ?v _ _] => set (vars := v) in * end.
   all: destruct (buildSteps sig_ok vars (d_steps d) (d_functions d)) as [| |steps] eqn:Est; simpl in H; try discriminate.
-  all: destruct (buildLogDir sh d e3) as [[r5 e5] l5]; destruct r5 as [| |logDir]; simpl in H; try discriminate.
+  all: destruct (buildLogDir sh d o e3) as [[r5 e5] l5]; destruct r5 as [| |logDir]; simpl in H; try discriminate.
   all: destruct (buildHandlers sig_ok vars (d_handlerOn d) (d_functions d)) as [| |hs] eqn:Ehs; simpl in H; try discriminate.
   all: destruct (buildConditions (d_preconditions d)) as [| |pre] eqn:Epre; simpl in H; try discriminate.
   all: destruct (assertFunctions (d_functions d)) as [| |[]] eqn:Efn; simpl in H; try discriminate.
@@ -509,7 +416,7 @@ Lemma buildStep_ok_inv : forall vars def fns s,
     parseExecutor (sd_executor def) = Ok ex /\
     parseSignal sig_ok (sd_signalOnStop def) = Ok sg /\
     st_name s = sd_name def /\ st_signalOnStop s = sg /\ st_preconditions s = conds /\
-    st_execConfig s = snd ex /\
+    st_execConfig s = snd ex /\ step_executable s = true /\
     (if is_empty (sd_run def)
      then st_execType s = fst ex /\ st_cmdWithArgs s = cwa /\ st_command s = cmd /\ st_subWorkflow s = None
      else st_subWorkflow s = Some (sd_run def, sd_params def)).
@@ -522,9 +429,11 @@ Proof.
   destruct (parseCommand (sd_command def) (init_of fc)) as [| |[[cwa cmd] args]] eqn:Ecmd; simpl in H; try discriminate.
   destruct (parseExecutor (sd_executor def)) as [| |ex] eqn:Eex; simpl in H; try discriminate.
   destruct (parseSignal sig_ok (sd_signalOnStop def)) as [| |sg] eqn:Esg; simpl in H; try discriminate.
+  match type of H with (if step_executable ?x then _ else _) = _ => destruct (step_executable x) eqn:Eexe end;
+    [|discriminate].
   inversion H; subst; clear H.
   exists conds, fc, cwa, cmd, args, ex, sg. simpl.
-  destruct (is_empty (sd_run def)); simpl; repeat split; auto.
+  destruct (is_empty (sd_run def)); simpl in *; repeat split; auto.
 Qed.
 
 Lemma assertStepDef_name : forall def fns, assertStepDef (Some def) fns = Ok tt -> is_empty (sd_name def) = false.
@@ -547,72 +456,13 @@ Proof.
   - rewrite Hsg. eapply parseSignal_ok; eauto.
 Qed.
 
-(* what gives a step something to execute, read off its DEFINITION *)
-Definition elem_text (x : yv) : string := match x with VStr s => s | _ => fmt_v x end.
-Definition command_gives_program (v : yv) : bool :=
-  match v with
-  | VStr _ => true                                    (* the empty string is rejected by parseCommand *)
-  | VList l => existsb (fun x => negb (is_empty (elem_text x))) l
-  | _ => false
-  end.
-Definition executor_type_of (v : yv) : string := match parseExecutor v with Ok (t, _) => t | _ => "" end.
-Definition call_gives_program (fns : list (option funcDef)) (c : option callFuncDef) : bool :=
-  match c with
-  | Some call => match find_func fns (cf_function call) with
-                 | Ok (Some f) => negb (is_empty (strip_params (f_command f)))
-                 | _ => false
-                 end
-  | None => false
-  end.
-Definition sd_executable (fns : list (option funcDef)) (sd : stepDef) : bool :=
-  negb (is_empty (sd_run sd)) || command_gives_program (sd_command sd) ||
-  negb (is_empty (executor_type_of (sd_executor sd))) ||
-  (call_gives_program fns (sd_call sd) && (is_null (sd_command sd) || match sd_command sd with VList _ => true | _ => false end)).
-
-Lemma command_list_loop_nonempty : forall l cmd args,
-  (is_empty cmd = false \/ existsb (fun x => negb (is_empty (elem_text x))) l = true) ->
-  is_empty (fst (command_list_loop l cmd args)) = false.
-Proof.
-  induction l as [|x l IH]; intros cmd args H; simpl.
-  - destruct H as [H|H]; [exact H | discriminate].
-  - fold (elem_text x). destruct (is_empty cmd) eqn:Ec.
-    + apply IH. destruct H as [H|H]; [discriminate|]. simpl in H.
-      destruct (is_empty (elem_text x)) eqn:Ex; simpl in H; [right; exact H | left; reflexivity].
-    + apply IH. left; exact Ec.
-Qed.
-
+(* fix aac42fa: the last test of buildStep *)
 Lemma buildStep_executable : forall vars def fns s,
-  buildStep sig_ok vars (Some def) fns = Ok s -> sd_executable fns def = true -> step_executable s = true.
+  buildStep sig_ok vars (Some def) fns = Ok s -> step_executable s = true.
 Proof.
-  intros vars def fns s H He.
-  destruct (buildStep_ok_inv _ _ _ _ H) as (conds & fc & cwa & cmd & args & ex & sg & _ & _ & Hfc & Hcmd & Hex & _ & _ & _ & _ & _ & Hrun).
-  unfold step_executable. destruct (is_empty (sd_run def)) eqn:Erun.
-  2:{ rewrite Hrun. repeat rewrite orb_true_r. reflexivity. }
-  destruct Hrun as (Ht & Hcwa & Hc & _). rewrite Ht, Hcwa, Hc.
-  unfold sd_executable in He. rewrite Erun in He. simpl in He.
-  apply orb_true_iff in He as [He|He]; [apply orb_true_iff in He as [He|He]|].
-  - (* the command *)
-    destruct (sd_command def) eqn:Ecmd; simpl in He; try discriminate.
-    + (* string *) destruct (init_of fc) as [[cwa0 cmd0] args0]. simpl in Hcmd.
-      destruct (is_empty s0) eqn:Es; [discriminate|]. destruct (split_command s0). inversion Hcmd; subst.
-      rewrite Es. simpl. rewrite orb_true_r. reflexivity.
-    + (* list *) destruct (init_of fc) as [[cwa0 cmd0] args0]. simpl in Hcmd.
-      pose proof (command_list_loop_nonempty l cmd0 args0 (or_intror He)) as Hne.
-      destruct (command_list_loop l cmd0 args0) as [c a]. inversion Hcmd; subst. simpl in Hne. rewrite Hne. reflexivity.
-  - (* the executor type *)
-    unfold executor_type_of in He. rewrite Hex in He. destruct ex as [t c]. simpl. rewrite He.
-    repeat rewrite orb_true_r. reflexivity.
-  - (* the called function *)
-    apply andb_true_iff in He as [Hcall Hshape]. unfold call_gives_program in Hcall.
-    destruct (sd_call def) as [call|]; [|discriminate]. simpl in Hfc.
-    destruct (call_args (cf_args call)) as [| |passed]; simpl in Hfc; try discriminate.
-    destruct (find_func fns (cf_function call)) as [| |[f|]]; simpl in Hfc; try discriminate.
-    inversion Hfc; subst; clear Hfc. simpl in Hcmd.
-    destruct (sd_command def) eqn:Ecmd; simpl in Hshape; try discriminate.
-    + inversion Hcmd; subst. rewrite Hcall. reflexivity.
-    + pose proof (command_list_loop_nonempty l (strip_params (f_command f)) (map snd passed)) as Hne.
-      destruct (command_list_loop l (strip_params (f_command f)) (map snd passed)) as [c a]. inversion Hcmd; subst.
-      simpl in Hne. rewrite Hne; [reflexivity|]. left. destruct (is_empty (strip_params (f_command f))); [discriminate | reflexivity].
+  intros vars def fns s H.
+  destruct (buildStep_ok_inv _ _ _ _ H) as (conds & fc & cwa & cmd & args & ex & sg & _ & _ & _ & _ & _ & _ & _ & _ & _ & _ & He & _).
+  exact He.
 Qed.
 
 Lemma buildSteps_ok : forall vars sds fns steps,
@@ -726,26 +576,15 @@ Proof.
     + destruct Hrest as (vars & steps & logDir & hs & smtp & pre & _ & _ & _ & _ & ->). simpl; auto.
 Qed.
 
-Definition osd_executable (fns : list (option funcDef)) (o : option stepDef) : bool :=
-  match o with Some sd => sd_executable fns sd | None => true end.
-(* excluded class (F13e): a step or handler definition that names nothing to execute *)
-Definition def_executable (d : definition) : bool :=
-  forallb (osd_executable (d_functions d)) (d_steps d) &&
-  forallb (fun nh => osd_executable (d_functions d) (snd nh)) (handler_defs (d_handlerOn d)).
-
-Lemma sd_executable_with_name : forall fns n sd, sd_executable fns (with_name n sd) = sd_executable fns sd.
-Proof. reflexivity. Qed.
-
-Theorem build_executable_partial : forall o d base e g,
-  outcome (build cron sig_ok tokenize sh o d base e) = Ok g -> def_executable d = true ->
+(* C13: every accepted step and handler has something to execute (full statement; before fix aac42fa the
+   model accepted `command: []`, `command: [""]`, `executor: ""` and calls of parameter-only functions) *)
+Theorem build_executable : forall o d base e g,
+  outcome (build cron sig_ok tokenize sh o d base e) = Ok g ->
   forall s, In s (all_steps g) -> step_executable s = true.
 Proof.
-  intros o d base e g H He s Hin. unfold def_executable in He. apply andb_true_iff in He as [He1 He2].
-  destruct (all_steps_origin _ _ _ _ _ H s Hin) as (vars & def & Hb & [Hd | (n & sd & Hn & ->)]).
-  - eapply buildStep_executable; [exact Hb|].
-    rewrite forallb_forall in He1. exact (He1 _ Hd).
-  - eapply buildStep_executable; [exact Hb|]. rewrite sd_executable_with_name.
-    rewrite forallb_forall in He2. exact (He2 _ Hn).
+  intros o d base e g H s Hin.
+  destruct (all_steps_origin _ _ _ _ _ H s Hin) as (vars & def & Hb & _).
+  eapply buildStep_executable; eauto.
 Qed.
 
 (* ---------------------------------------------------------------------------------------------------- *)
@@ -827,65 +666,25 @@ Proof.
 Qed.
 
 (* ---------------------------------------------------------------------------------------------------- *)
-(* C13: evaluating the conditions of an accepted DAG does not crash - outside the class of F13d            *)
+(* C13: evaluating conditions - of an accepted DAG or any others - does not crash                           *)
 (* ---------------------------------------------------------------------------------------------------- *)
-Definition expected_ok (x : string) : bool := if prefixb "re:" x then re_ok x else true.
-
-Lemma evalCondition_np : forall c, expected_ok (cond_expected c) = true -> NP (evalCondition re_ok sh cond_met c).
+(* full statement (before fix 089471d an `expected:` with the re: prefix whose pattern does not compile made
+   evalCondition panic through a nil logger) *)
+Lemma evalCondition_np : forall c, NP (evalCondition re_ok sh cond_met c).
 Proof.
-  intros c H e. unfold evalCondition.
+  intros c e. unfold evalCondition.
   match goal with |- outcome (bind ?m ?f e) <> Panic => apply (NP_bind _ _ m f) end; [apply substituteCommands_np|].
-  intros actual. unfold expected_ok in H. destruct (prefixb "re:" (cond_expected c)); simpl.
-  - rewrite H. apply NP_ret.
-  - apply NP_ret.
+  intros actual. destruct (_ && _); apply NP_ret.
 Qed.
 
-Lemma evalConditions_np : forall cs, (forall c, In c cs -> expected_ok (cond_expected c) = true) ->
-  NP (evalConditions re_ok sh cond_met cs).
+Theorem evalConditions_np : forall cs, NP (evalConditions re_ok sh cond_met cs).
 Proof.
-  induction cs as [|c cs IH]; simpl; intros H; [apply NP_ret|].
-  apply NP_bind; [apply evalCondition_np, H; auto|]. intros [|]; [apply IH; auto | apply NP_lift; discriminate].
-Qed.
-
-Definition ocd_ok (o : option conditionDef) : bool := match o with Some cd => expected_ok (c_expected cd) | None => true end.
-Definition osd_conditions (o : option stepDef) : list (option conditionDef) := match o with Some sd => sd_preconditions sd | None => [] end.
-(* excluded class (F13d): an `expected:` with the re: prefix whose pattern does not compile *)
-Definition def_regexps_ok (d : definition) : bool :=
-  forallb ocd_ok (d_preconditions d) && forallb (fun o => forallb ocd_ok (osd_conditions o)) (d_steps d) &&
-  forallb (fun nh => forallb ocd_ok (osd_conditions (snd nh))) (handler_defs (d_handlerOn d)).
-
-Lemma buildConditions_ok : forall cs l, buildConditions cs = Ok l -> forallb ocd_ok cs = true ->
-  forall c, In c l -> expected_ok (cond_expected c) = true.
-Proof.
-  induction cs as [|[cd|] cs IH]; simpl; intros l H Hok c Hin; try discriminate.
-  - inversion H; subst. destruct Hin.
-  - apply andb_true_iff in Hok as [H1 H2].
-    destruct (buildConditions cs) as [| |rest]; simpl in H; try discriminate. inversion H; subst.
-    destruct Hin as [<-|Hin]; [exact H1 | eapply IH; eauto].
-Qed.
-
-Theorem build_conditions_partial : forall o d base e g,
-  outcome (build cron sig_ok tokenize sh o d base e) = Ok g -> def_regexps_ok d = true ->
-  forall cs, (forall c, In c cs -> In c (all_conditions g)) -> NP (evalConditions re_ok sh cond_met cs).
-Proof.
-  intros o d base e g H Hre cs Hsub. apply evalConditions_np. intros c Hc. specialize (Hsub c Hc).
-  unfold def_regexps_ok in Hre. apply andb_true_iff in Hre as [Hre Hh]. apply andb_true_iff in Hre as [Hp Hs].
-  unfold all_conditions in Hsub. apply in_app_iff in Hsub as [Hin|Hin].
-  - destruct (build_ok_inv _ _ _ _ _ H) as (env & sch & par & _ & Hrest). destruct (o_metadataOnly o).
-    + subst g. destruct Hin.
-    + destruct Hrest as (vars & steps & logDir & hs & smtp & pre & _ & _ & Hpre & _ & ->). simpl in Hin.
-      eapply buildConditions_ok; eauto.
-  - apply in_flat_map in Hin as (s & Hs1 & Hs2).
-    destruct (all_steps_origin _ _ _ _ _ H s Hs1) as (vars & def & Hb & Horigin).
-    destruct (buildStep_ok_inv _ _ _ _ Hb) as (conds & fc & cwa & cmd & args & ex & sg & _ & Hconds & _ & _ & _ & _ & _ & _ & Hpc & _).
-    rewrite Hpc in Hs2. eapply buildConditions_ok; [exact Hconds | | exact Hs2].
-    destruct Horigin as [Hd | (n & sd & Hn & ->)].
-    + rewrite forallb_forall in Hs. exact (Hs _ Hd).
-    + rewrite forallb_forall in Hh. exact (Hh _ Hn).
+  induction cs as [|c cs IH]; simpl; [apply NP_ret|].
+  apply NP_bind; [apply evalCondition_np|]. intros [|]; [apply IH | apply NP_lift; discriminate].
 Qed.
 
 (* ---------------------------------------------------------------------------------------------------- *)
-(* C19: under noEval the builder has no effect - outside the classes of F19a (logDir) and F19b (params)   *)
+(* C19: under noEval the builder has no effect and leaves the environment as it is (full statement)          *)
 (* ---------------------------------------------------------------------------------------------------- *)
 Lemma loadVariables_loop_quiet : forall e pairs vars, quiet e (loadVariables_loop sh true pairs vars).
 Proof. intros e. induction pairs as [|[k raw] r IH]; intros vars; simpl; [apply quiet_ret | apply IH]. Qed.
@@ -897,43 +696,49 @@ Proof.
   apply quiet_bind; [apply quiet_lift | intros; apply loadVariables_loop_quiet].
 Qed.
 
-(* the parameter string the loader parses: the one given on the command line, else the default of the file *)
-Definition effective_params (o : opts) (d : definition) : string :=
-  if is_empty (o_parameters o) then d_params d else o_parameters o.
-
-Lemma buildParams_quiet : forall e d o, o_noEval o = true -> tokenize (effective_params o d) = [] ->
-  quiet e (buildParams tokenize sh d o).
+Lemma parseParamValue_quiet : forall e toks, quiet e (parseParamValue sh false toks).
 Proof.
-  intros e d o Hn Ht. unfold buildParams, parseParams. fold (effective_params o d). rewrite Ht.
-  unfold quiet, bind, ret, effects, env_after; simpl. auto.
+  intros e. induction toks as [|[name value] r IH]; simpl; [apply quiet_ret|].
+  apply quiet_bind.
+  - destruct (_ || _); apply quiet_ret.
+  - intros p. apply quiet_bind; [exact IH | intros; apply quiet_ret].
 Qed.
 
-(* the commands buildLogDir would run when the loader starts in environment e *)
-Definition logdir_commands (e : envt) (d : definition) : list string := ticker_matches (expand_env e (d_logDir d)).
-
-Lemma buildLogDir_quiet : forall e d, logdir_commands e d = [] -> quiet e (buildLogDir sh d).
+(* fix a55d876: no positional parameter is exported under noEval *)
+Lemma parseParams_loop_quiet : forall e eval ps i r envs, quiet e (parseParams_loop eval true i ps r envs).
 Proof.
-  intros e d H. unfold quiet, buildLogDir, substituteCommands. unfold logdir_commands in H. rewrite H. simpl. auto.
+  intros e eval. induction ps as [|[name v0] ps IH]; intros i r envs; simpl; [apply quiet_ret|].
+  unfold quiet. simpl.
+  match goal with |- context [bind ?m ?f e] => change (quiet e (bind m f)) end.
+  apply quiet_bind; [apply quiet_ret|]. intros _. apply IH.
 Qed.
+
+Lemma buildParams_quiet : forall e d o, o_noEval o = true -> quiet e (buildParams tokenize sh d o).
+Proof.
+  intros e d o Hn. unfold buildParams, parseParams. rewrite Hn. simpl.
+  apply quiet_bind; [|intros; apply quiet_ret].
+  apply quiet_bind; [apply parseParamValue_quiet | intros; apply parseParams_loop_quiet].
+Qed.
+
+(* fix 4348d0d: no command substitution in logDir under noEval *)
+Lemma buildLogDir_quiet : forall e d o, o_noEval o = true -> quiet e (buildLogDir sh d o).
+Proof. intros e d o Hn. unfold quiet, buildLogDir. rewrite Hn. simpl. auto. Qed.
 
 Lemma buildSMTPConfig_quiet : forall e d, quiet e (buildSMTPConfig d).
 Proof. intros; split; reflexivity. Qed.
 
-Theorem build_no_effects_partial : forall o d base e,
+Theorem build_no_effects : forall o d base e,
   o_noEval o = true ->
-  tokenize (effective_params o d) = [] ->                        (* excluded class F19b: parameters present *)
-  (o_metadataOnly o = true \/ logdir_commands e d = []) ->         (* excluded class F19a: command substitution in logDir *)
   effects (build cron sig_ok tokenize sh o d base e) = [] /\ env_after (build cron sig_ok tokenize sh o d base e) = e.
 Proof.
-  intros o d base e Hn Ht Hl. change (quiet e (build cron sig_ok tokenize sh o d base)). unfold build.
+  intros o d base e Hn. change (quiet e (build cron sig_ok tokenize sh o d base)). unfold build.
   apply quiet_bind; [apply quiet_try, buildEnvs_quiet, Hn|]. intros r_env.
   apply quiet_bind; [apply quiet_try, quiet_lift|]. intros r_sch.
-  apply quiet_bind; [apply quiet_try, buildParams_quiet; assumption|]. intros r_par.
+  apply quiet_bind; [apply quiet_try, buildParams_quiet, Hn|]. intros r_par.
   destruct (o_metadataOnly o) eqn:Em.
   - destruct r_env, r_sch, r_par; try apply quiet_ret; apply quiet_lift.
-  - destruct Hl as [Hl|Hl]; [discriminate|].
-    apply quiet_bind; [apply quiet_try, quiet_lift|]. intros r_steps.
-    apply quiet_bind; [apply quiet_try, buildLogDir_quiet, Hl|]. intros r_log.
+  - apply quiet_bind; [apply quiet_try, quiet_lift|]. intros r_steps.
+    apply quiet_bind; [apply quiet_try, buildLogDir_quiet, Hn|]. intros r_log.
     apply quiet_bind; [apply quiet_try, quiet_lift|]. intros r_hs.
     apply quiet_bind; [apply quiet_try, buildSMTPConfig_quiet|]. intros r_smtp.
     apply quiet_bind; [apply quiet_try, quiet_lift|]. intros r_pre.
@@ -948,7 +753,7 @@ Theorem build_effects : forall o d base e,
   outcome (build cron sig_ok tokenize sh o d base e) <> Panic ->
   let x1 := buildEnvs sh d o base e in
   let x2 := buildParams tokenize sh d o (env_after x1) in
-  let x3 := buildLogDir sh d (env_after x2) in
+  let x3 := buildLogDir sh d o (env_after x2) in
   effects (build cron sig_ok tokenize sh o d base e) =
   effects x1 ++ effects x2 ++ (if o_metadataOnly o then [] else effects x3).
 Proof.
@@ -962,7 +767,7 @@ Proof.
   all: try (destruct env; destruct sch; destruct par; simpl; rewrite ?app_nil_r; reflexivity).
   all: match goal with |- context [buildSteps sig_ok ?v _ _] => remember v as vars eqn:Hv; clear Hv end.
   all: destruct (buildSteps sig_ok vars (d_steps d) (d_functions d)) as [| |steps]; simpl in *; try congruence.
-  all: destruct (buildLogDir sh d e3) as [[r5 e5] l5]; destruct r5 as [| |logDir]; simpl in *; try congruence.
+  all: destruct (buildLogDir sh d o e3) as [[r5 e5] l5]; destruct r5 as [| |logDir]; simpl in *; try congruence.
   all: destruct (buildHandlers sig_ok vars (d_handlerOn d) (d_functions d)) as [| |hs]; simpl in *; try congruence.
   all: destruct (buildConditions (d_preconditions d)) as [| |pre]; simpl in *; try congruence.
   all: destruct (assertFunctions (d_functions d)) as [| |[]]; simpl in *; try congruence.
